@@ -227,7 +227,9 @@ impl Finding {
         self.status == "open"
     }
     pub fn matches(&self, f: &Failure) -> bool {
-        self.clause == f.clause
+        // clause "*" = every clause of the property's oracle (only for findings whose trigger is
+        // narrow and whose damage shows up under several clauses)
+        (self.clause == f.clause || self.clause == "*")
             && f.site.starts_with(&self.site)
             && self.trigger.iter().all(|t| f.features.iter().any(|x| x == t))
     }
